@@ -447,9 +447,40 @@ def write_file(path: Path, text: str, clock: Clock | None):
         os.utime(path, (t, t))
 
 
+PYPROJECT_BASE = '[tool.pytask.ini_options]\nmarkers = {markone = "marker one", marktwo = "marker two"}\n'
+
+
+def config_file_options(cfg: dict) -> dict:
+    """options a build asks for through the project's config file rather than as keyword arguments (cfg["maxfail_src"])"""
+    src = cfg.get("maxfail_src", "kwarg")
+    n = cfg.get("maxfail")
+    if n is None:
+        return {}
+    if src in ("config", "both"):
+        return {"max_failures": int(n)}
+    if src == "config_stop":
+        return {"stop_after_first_failure": True}
+    return {}
+
+
+def write_config_file(root: Path, cfg: dict):
+    """(re)writes the root pyproject.toml for the next build: the marker table plus the options of `config_file_options`"""
+    opts = config_file_options(cfg)
+    stamp = root / ".verif_cfgfile"
+    if not opts and not stamp.exists():
+        return                                        # this history never asked for config-file options: leave the file alone
+    stamp.write_text("1")
+    lines = PYPROJECT_BASE
+    for k, v in opts.items():
+        lines += f"{k} = {'true' if v is True else v}\n"
+    p = root / "pyproject.toml"
+    if not p.exists() or p.read_text() != lines:
+        p.write_text(lines)
+
+
 def materialise(root: Path, spec, clock: Clock | None = None):
     root.mkdir(parents=True, exist_ok=True)
-    (root / "pyproject.toml").write_text('[tool.pytask.ini_options]\nmarkers = {markone = "marker one", marktwo = "marker two"}\n')
+    (root / "pyproject.toml").write_text(PYPROJECT_BASE)
     (root / "_verif_rt.py").write_text(RT)
     if any(t.get("mem_out") or t.get("mem_in") for t in spec["tasks"]):
         # in-memory nodes shared between task modules: one PythonNode object per producer id
